@@ -573,16 +573,30 @@ func sameMultiset(a, b []float64) bool {
 
 // c09DropLastChunk removes the last entry of the (single) chunk index leaf of a file that holds
 // one chunked dataset: version 1 B-tree node, type 1, level 0, "entries used" reduced by one.
-func c09DropLastChunk(path string) bool {
+// which: 0 the last entry, otherwise an entry in front of it (first, middle, ...), so that the
+// chunk that is not stored has stored successors in the index order. An entry of a chunk index
+// leaf is a key (chunk size 4, filter mask 4, one 8-byte offset per dimension as this library
+// writes them) and a child address.
+func c09DropChunk(path string, rank, which int) bool {
 	b, err := os.ReadFile(path)
 	if err != nil {
 		return false
 	}
-	for i := 0; i+8 <= len(b); i++ {
+	for i := 0; i+24 <= len(b); i++ {
 		if b[i] == 'T' && b[i+1] == 'R' && b[i+2] == 'E' && b[i+3] == 'E' && b[i+4] == 1 && b[i+5] == 0 {
 			n := int(b[i+6]) | int(b[i+7])<<8
 			if n < 2 {
 				return false
+			}
+			if which != 0 {
+				entry := 8 + 8*rank + 8 // the library writes rank offsets per key (listed C05 deviation), not rank+1
+				k := []int{0, 0, n / 2, n - 2}[which%4] // entry to remove
+				lo := i + 24 + k*entry
+				hi := i + 24 + n*entry + (entry - 8) // behind the final key
+				if hi > len(b) || lo+entry > hi {
+					return false
+				}
+				copy(b[lo:], b[lo+entry:hi])
 			}
 			n--
 			b[i+6], b[i+7] = byte(n), byte(n>>8)
@@ -641,7 +655,9 @@ func c09Run(c *ev.Ctx) {
 				op.Chunk[rank-1] = uint64(r.Range(int(dims[rank-1])/200+1, int(dims[rank-1])))
 			}
 			layoutTag = "chunked"
-			if r.Chance(1, 3) {
+			// deflate allocates a compressor per chunk: datasets with thousands of chunks stay
+			// unfiltered (memory of the writer is not this property's subject)
+			if r.Chance(1, 3) && hx.NumElems(dims)/hx.NumElems(op.Chunk) <= 2000 {
 				op.Gzip = r.Range(1, 9)
 				op.Shuffle = r.Bool()
 				layoutTag = "chunked+filter"
@@ -660,7 +676,7 @@ func c09Run(c *ev.Ctx) {
 			// a chunk that was never written (as in files other writers leave partially filled):
 			// the last entry of the chunk index leaf is dropped, the reader must treat the chunk
 			// as fill values in every kind of read
-			if c09DropLastChunk(path) {
+			if c09DropChunk(path, len(dims), r.Intn(4)) {
 				layoutTag += "+missing-chunk"
 				c.Count("datasets:library:with_a_chunk_that_is_not_stored", 1)
 			}
@@ -739,7 +755,7 @@ func c09Run(c *ev.Ctx) {
 var C09 = &ev.Property{
 	ID:    "C09",
 	Level: "exploration",
-	Rule: "datasets: (1) library-written, rank 1-4, extents 1-12 per axis (one in ten of rank 2-3 with 17-60 / 17-22 elements per axis in chunks of 1-3 / 1, i.e. grids of more than sixteen chunks along every axis; one in twelve with a last axis of 20 000-50 000 elements; on those, selections with blocks of 1-3 separated by gaps of 8189..8200 and 16383..16390 elements are enumerated), contiguous / chunked (whole, non-dividing, many chunks, chunk of one, random) / filtered, six numeric kinds, superblock 0/2/3; (2) every dataset of the reference corpus whose full Read succeeds (incl. compact, big-endian, filtered). Per dataset: full extent, first element, last element, half along each axis, a selection straddling a chunk boundary in every axis, and seeded random selections with stride>1 and block>1 (30 quick / 120 thorough for library datasets, 12 / 40 for corpus datasets) are read with ReadHyperslab (and ReadSlice where applicable) and compared element-wise with the coordinates picked from the full Read in row-major selection order; seven kinds of invalid selections (start>=dim, start+count>dim, overflow near 2^64, zero count, stride past the end, rank mismatch, stride overflow) must be rejected; the chunk iterator must visit each stored chunk once and its pieces must tile the full read; in a third of the chunked library datasets the last chunk of the index is removed from the file (a chunk that was never written): its elements are fill values in every kind of read and have no piece. " +
+	Rule: "datasets: (1) library-written, rank 1-4, extents 1-12 per axis (one in ten of rank 2-3 with 17-60 / 17-22 elements per axis in chunks of 1-3 / 1, i.e. grids of more than sixteen chunks along every axis; one in twelve with a last axis of 20 000-50 000 elements; on those, selections with blocks of 1-3 separated by gaps of 8189..8200 and 16383..16390 elements are enumerated), contiguous / chunked (whole, non-dividing, many chunks, chunk of one, random) / filtered, six numeric kinds, superblock 0/2/3; (2) every dataset of the reference corpus whose full Read succeeds (incl. compact, big-endian, filtered). Per dataset: full extent, first element, last element, half along each axis, a selection straddling a chunk boundary in every axis, and seeded random selections with stride>1 and block>1 (30 quick / 120 thorough for library datasets, 12 / 40 for corpus datasets) are read with ReadHyperslab (and ReadSlice where applicable) and compared element-wise with the coordinates picked from the full Read in row-major selection order; seven kinds of invalid selections (start>=dim, start+count>dim, overflow near 2^64, zero count, stride past the end, rank mismatch, stride overflow) must be rejected; the chunk iterator must visit each stored chunk once and its pieces must tile the full read; in a third of the chunked library datasets one chunk (the last, the first, a middle one) is removed from the index in the file (a chunk that was never written): its elements are fill values in every kind of read and have no piece. " +
 		"distinct = dataset descriptor (layout, dims, chunk, type) or corpus dataset path; every dataset with a successful full read is non-trivial.",
 	Assumptions: []string{
 		"the dataset's own full Read is the reference (its correctness is decided by C01/C06)",
